@@ -101,7 +101,7 @@ def strip_comments(src: str) -> str:
 def lake_build(clean: bool = False, prop: str | None = None) -> tuple[bool, str]:
     if clean:
         subprocess.run(["lake", "clean"], cwd=LEAN, capture_output=True, text=True)
-    targets = ["Physt", "physt_driver"] + (theorem_modules(prop) if prop else [])
+    targets = ["Physt", "PhystGen", "physt_driver"] + (theorem_modules(prop) if prop else [])
     p = subprocess.run(["lake", "build"] + targets, cwd=LEAN, capture_output=True, text=True)
     return p.returncode == 0, (p.stdout + p.stderr)[-4000:]
 
@@ -109,11 +109,12 @@ def lake_build(clean: bool = False, prop: str | None = None) -> tuple[bool, str]
 def theorem_files(prop: str) -> list[Path]:
     """Theorems/Cxx.lean plus its continuation files Theorems/Cxx_*.lean"""
     d = LEAN / "Physt" / "Theorems"
-    return [d / f"{prop}.lean"] + sorted(d.glob(f"{prop}_*.lean"))
+    # PhystGen/Cxx_*.lean: theorems about the definitions generated from physt's source (harness/gen_tie.py)
+    return [d / f"{prop}.lean"] + sorted(d.glob(f"{prop}_*.lean")) + sorted((LEAN / "PhystGen").glob(f"{prop}_*.lean"))
 
 
 def theorem_modules(prop: str) -> list[str]:
-    return [f"Physt.Theorems.{p.stem}" for p in theorem_files(prop)]
+    return [(f"PhystGen.{p.stem}" if p.parent.name == "PhystGen" else f"Physt.Theorems.{p.stem}") for p in theorem_files(prop)]
 
 
 def theorem_names(prop: str) -> list[str]:
